@@ -39,7 +39,7 @@ def generate(tape, tier="quick"):
         k = tape.weighted([("delay_fixed", 5), ("delay_pull", 4), ("delay_push", 2)])
         a = {"kind": k}
         if k == "delay_fixed":
-            a["d"] = tape.choice([0, 1, 2, 3, 5, 8, 13])
+            a["d"] = tape.choice([0, 1, 2, 3, 5, 8, 13, 26, 49])
         elif k == "delay_pull":
             a["n"] = tape.rng_int(1, 4)
             a["x"] = tape.choice([0, 0, 1, 3])
